@@ -19,13 +19,16 @@ def check(a,b):
     if out!=b: prob.append("APPLY_MISMATCH")
     if a==b and es: prob.append("NONEMPTY_ON_EQUAL")
     return prob, es
-stats=collections.Counter(); shown=0; n=0
-L=int(sys.argv[1])
-seqs=[s for k in range(L+1) for s in itertools.product(TOK, repeat=k)]
-for x in seqs:
-    for y in seqs:
-        a="".join(x); b="".join(y); n+=1
-        p,es=check(a,b)
-        for q in set(p): stats[q]+=1
-        if p and shown<6: shown+=1; print(repr(a),repr(b),p,[(e.target_text,e.new_text,e._match_start_index) for e in es])
-print(n, dict(stats))
+def main():
+    stats=collections.Counter(); shown=0; n=0
+    L=int(sys.argv[1])
+    seqs=[s for k in range(L+1) for s in itertools.product(TOK, repeat=k)]
+    for x in seqs:
+        for y in seqs:
+            a="".join(x); b="".join(y); n+=1
+            p,es=check(a,b)
+            for q in set(p): stats[q]+=1
+            if p and shown<6: shown+=1; print(repr(a),repr(b),p,[(e.target_text,e.new_text,e._match_start_index) for e in es])
+    print(n, dict(stats))
+    
+if __name__=='__main__': main()
